@@ -94,7 +94,10 @@ var ErrInjected = errors.New("verif: injected API failure")
 
 // API implements client.Client.
 type API struct {
-	inner client.WithWatch
+	inner client.Client
+	store *Store // non-nil when inner is the in-memory store
+	// RecordReads keeps deep copies of what every Get/List returned in the call log.
+	RecordReads bool
 	mu    sync.Mutex
 	Log   []*Call
 	// FaultFn decides the fault for a call (called with the call index and the call key); nil = none.
@@ -107,11 +110,18 @@ type API struct {
 	quiet bool
 }
 
-// NewAPI builds a store holding objs.
-func NewAPI(objs []client.Object) *API {
+// NewAPI builds the API layer over the in-memory store holding objs (shared, immutable).
+func NewAPI(objs []*Obj) *API {
+	st := NewStore(objs)
+	st.StrictRV = true
+	return &API{inner: st, store: st}
+}
+
+// NewAPIFake builds the API layer over controller-runtime's fake client (conformance tests).
+func NewAPIFake(objs []*Obj) *API {
 	cp := make([]client.Object, len(objs))
 	for i, o := range objs {
-		cp[i] = o.DeepCopyObject().(client.Object)
+		cp[i] = o.O.DeepCopyObject().(client.Object)
 	}
 	b := fake.NewClientBuilder().WithScheme(Scheme).WithObjects(cp...).
 		WithStatusSubresource(&v1.ExtendedDaemonSet{}, &v1.ExtendedDaemonSetReplicaSet{}, &v1.ExtendedDaemonsetSetting{}, &corev1.Pod{})
@@ -182,7 +192,7 @@ func (a *API) Get(ctx context.Context, key client.ObjectKey, obj client.Object, 
 		return c.Err
 	}
 	c.Err = a.inner.Get(ctx, key, obj, opts...)
-	if c.Err == nil {
+	if c.Err == nil && a.RecordReads {
 		c.Obj = cp(obj)
 	}
 	return c.Err
@@ -204,17 +214,21 @@ func (a *API) List(ctx context.Context, list client.ObjectList, opts ...client.L
 	if c.Err != nil {
 		return c.Err
 	}
-	items, _ := meta.ExtractList(list)
-	sort.SliceStable(items, func(i, j int) bool {
-		x, y := items[i].(client.Object), items[j].(client.Object)
-		if x.GetNamespace() != y.GetNamespace() {
-			return (x.GetNamespace() < y.GetNamespace()) != a.ReverseLists
+	if a.ReverseLists || a.RecordReads || a.store == nil {
+		items, _ := meta.ExtractList(list)
+		sort.SliceStable(items, func(i, j int) bool {
+			x, y := items[i].(client.Object), items[j].(client.Object)
+			if x.GetNamespace() != y.GetNamespace() {
+				return (x.GetNamespace() < y.GetNamespace()) != a.ReverseLists
+			}
+			return (x.GetName() < y.GetName()) != a.ReverseLists
+		})
+		_ = meta.SetList(list, items)
+		if a.RecordReads {
+			for _, it := range items {
+				c.Items = append(c.Items, cp(it.(client.Object)))
+			}
 		}
-		return (x.GetName() < y.GetName()) != a.ReverseLists
-	})
-	_ = meta.SetList(list, items)
-	for _, it := range items {
-		c.Items = append(c.Items, cp(it.(client.Object)))
 	}
 	return nil
 }
@@ -460,20 +474,25 @@ func (a *API) IsObjectNamespaced(obj runtime.Object) (bool, error) {
 	return a.inner.IsObjectNamespaced(obj)
 }
 
-// Snapshot returns deep copies of every object in the store, sorted by kind/namespace/name.
-func (a *API) Snapshot() []client.Object {
+// Snapshot returns every object in the store, sorted by kind/namespace/name (shared, immutable).
+func (a *API) Snapshot() []*Obj {
+	if a.store != nil {
+		return a.store.Snapshot()
+	}
 	ctx := context.Background()
-	var out []client.Object
+	var out []*Obj
 	lists := []client.ObjectList{&corev1.NodeList{}, &corev1.PodList{}, &corev1.PodTemplateList{}, &appsv1.DaemonSetList{},
 		&v1.ExtendedDaemonSetList{}, &v1.ExtendedDaemonSetReplicaSetList{}, &v1.ExtendedDaemonsetSettingList{}}
 	for _, l := range lists {
 		must(a.inner.List(ctx, l))
 		items, _ := meta.ExtractList(l)
 		for _, it := range items {
-			out = append(out, it.(client.Object))
+			o := it.(client.Object)
+			o.GetObjectKind().SetGroupVersionKind(schema.GroupVersionKind{})
+			out = append(out, Wrap(o))
 		}
 	}
-	SortObjs(out)
+	SortWrapped(out)
 	return out
 }
 
